@@ -47,7 +47,8 @@ PROPERTY_OF = dict([(r, "E1") for r in E1] + [(r, "E2") for r in E2] + [(r, "E3"
 
 # design runs: (cfg, quick, what it is); thorough replaces MaxEnv by the second number
 DESIGN = [
-    ("HeimdallMC_v3.cfg", 3, 4, "file source, 1 source up to 3 versions, 2 requests"),
+    ("HeimdallMC_v3.cfg", 3, 4, "file source rewritten (new versions, truncations, in place: torn reads), 1 source up to "
+     "3 versions, 2 requests"),
     ("HeimdallMC_poll.cfg", 2, 3, "endpoints (polls), 2 sources, 2 requests"),
     ("HeimdallMC.cfg", 2, 3, "file sources (notifications), 2 sources, 2 requests"),
     ("HeimdallMC_stamped.cfg", 2, 3, "observer with counter stamps (as in recorded traces), 1 source"),
@@ -113,9 +114,13 @@ def design_run(work, tier):
                         % (name, got, expect, r.out[-1500:]))
         return expect
 
-    with ThreadPoolExecutor(max_workers=9 if quick else 6) as ex:
-        mains = [ex.submit(main, *d) for d in DESIGN]
-        ctrls = {c: ex.submit(control, c, e) for c, e in CONTROLS}
+    # quick: the controls stated on the contract (what judges the real traces); thorough: also the same mutants
+    # against the properties stated on the composition's own state, and the liveness run for endpoints
+    designs = [d for d in DESIGN if not (quick and d[0] == "HeimdallMC_live_poll.cfg")]
+    controls = [(c, e) for c, e in CONTROLS if not (quick and c.endswith("_state.cfg"))]
+    with ThreadPoolExecutor(max_workers=8 if quick else 6) as ex:
+        mains = [ex.submit(main, *d) for d in designs]
+        ctrls = {c: ex.submit(control, c, e) for c, e in controls}
         res = [f.result() for f in mains]
         refuted = {c.replace("HeimdallMC_", "").replace(".cfg", ""): f.result() for c, f in ctrls.items()}
     return {
@@ -355,8 +360,9 @@ def binding_selftest(work, lines, rejected_runs):
                         m[idx_of[q["id"]]]["tag"] = "norule"
                     if add("missing", mutated(f), "e2e-rule-missing-during-update"):
                         break
-            # 5. regression: two requests in real-time order inside one window swap their versions
-            done = False
+            # 5. regression: two requests in real-time order inside one window swap their versions (only where
+            #    no file is rewritten in place: a torn read could explain a mixture)
+            done = any(w["mode"] in ("inplace", "truncate") for w in writes)
             for q2 in reqs:
                 k = _ver(q2["tag"])
                 if not k or done:
